@@ -213,3 +213,69 @@ Proof.
   - rewrite (si_phase s n Inv) in P. discriminate.
   - pose proof (inv_phase s pp0 Inv) as P0. rewrite P in P0. injection P0 as <-. now apply (pending_nonempty s pp sq k).
 Qed.
+
+(* C01: every state inside a turn can be continued to a complete legal turn: either a pass is offered now, or the
+   pending push has a completion after which the turn is over (fourth step) or a pass is offered *)
+Theorem completable s pp : PlayInv s pp -> pending_ok s pp -> 1 <= step_of pp -> move_no s < P64 ->
+  In Pass (valid_actions_no_rep s) \/
+  exists i d, In (Move i d) (valid_actions_no_rep s) /\
+              (3 <= step_of pp \/ In Pass (valid_actions_no_rep (take_action s (Move i d)))).
+Proof.
+  intros Inv Pd H1 Hm. pose proof Inv as [Hph W _ H3 Hst].
+  pose proof (T1_pass s pp Hph W (status_inv_ok _ _ _ Hst)) as TP. pose proof (fun i d => T1_move s pp Hph W (status_inv_ok _ _ _ Hst) i d) as TM.
+  destruct (pstate pp) as [|sq k|sq k] eqn:E.
+  - left. apply TP. unfold spec_pass_ok. cbn. destruct (N.leb_spec 1 (step_of pp)); [reflexivity|lia].
+  - left. apply TP. unfold spec_pass_ok. cbn. destruct (N.leb_spec 1 (step_of pp)); [reflexivity|lia].
+  - right. unfold pending_ok in Pd. rewrite E in Pd. destruct Pd as (i & d & Hi & V).
+    assert (In (Move i d) (valid_actions_no_rep s)) as Off.
+    { apply TM. cbn [sstatus_of spec_move_ok]. tauto. }
+    exists i, d. split; [exact Off|].
+    destruct (N.lt_ge_cases (step_of pp) 3) as [L|L]; [right|now left].
+    destruct (move_preserves s pp i d Inv Off) as [pp' Inv'].
+    pose proof (step_mid s pp i d Hph L Hm) as (_ & _ & q & Q1 & Q2 & _ & _ & Q5). cbv zeta in *.
+    pose proof (inv_phase _ pp' Inv') as P'. rewrite Q1 in P'. injection P' as <-.
+    pose proof Inv' as [Hph' W' _ _ Hst'].
+    apply (T1_pass _ q Hph' W' (status_inv_ok _ _ _ Hst')).
+    pose proof (offered_move_pre s pp i d Inv Off) as [_ (t & o & k' & Hd & Hc & Ht)].
+    rewrite Q5, (next_status_spec s pp i d t o k' Inv Hi Hd Hc), E. cbn [sstatus_of]. unfold spec_next_status. rewrite Hc.
+    unfold push_finish_ok in V. rewrite Hc, Hd in V. apply andb_prop in V. destruct V as [V _]. apply andb_prop in V. destruct V as [V _].
+    apply andb_prop in V. destruct V as [V _]. rewrite V. cbn [negb]. unfold spec_pass_ok. rewrite Q2.
+    destruct (N.leb_spec 1 (step_of pp + 1)); [reflexivity|lia].
+Qed.
+
+(* ---- C01: strictness corollaries ---- *)
+Lemma stronger_irrefl k : stronger k k = false.
+Proof. destruct k; reflexivity. Qed.
+
+Lemma strict_completion s pp sq k i d : PlayInv s pp -> pstate pp = MustCompletePush sq k ->
+  In (Move i d) (valid_actions_no_rep s) ->
+  exists k', cell (board s) i = Some (side s, k') /\ stronger k' k = true /\ frozen (cell (board s)) i = false /\ dst_of i d = Some sq.
+Proof.
+  intros Inv E Off. pose proof Inv as [Hph W _ _ Hst].
+  pose proof (T1_move s pp Hph W (status_inv_ok _ _ _ Hst) i d) as TM. rewrite E in TM. apply TM in Off. destruct Off as [_ V].
+  cbn [sstatus_of spec_move_ok] in V. unfold push_finish_ok in V.
+  destruct (cell (board s) i) as [[o k']|]; [|discriminate]. destruct (dst_of i d) as [t|]; [|discriminate].
+  apply andb_prop in V. destruct V as [V V4]. apply andb_prop in V. destruct V as [V V3]. apply andb_prop in V. destruct V as [V1 V2].
+  apply eqb_prop in V1. apply N.eqb_eq in V2. subst o t. exists k'. repeat split; auto. now apply negb_true_iff.
+Qed.
+
+(* a rabbit of the mover is never offered a backward step (it may still be pushed or pulled backward by the opponent:
+   those are steps of the OTHER side's turn) *)
+Lemma own_rabbit_not_backward s pp i d : PlayInv s pp -> In (Move i d) (valid_actions_no_rep s) ->
+  cell (board s) i = Some (side s, Rabbit) -> backward (side s) d = false.
+Proof.
+  intros Inv Off Hc. pose proof Inv as [Hph W _ _ Hst].
+  pose proof (T1_move s pp Hph W (status_inv_ok _ _ _ Hst) i d) as TM. apply TM in Off. destruct Off as [_ V].
+  unfold spec_move_ok in V.
+  assert (own_step_ok (cell (board s)) (side s) i d = true -> backward (side s) d = false) as Own.
+  { unfold own_step_ok. rewrite Hc. destruct (dst_of i d); [|discriminate]. intros H. apply andb_prop in H. destruct H as [_ H]. now apply negb_true_iff. }
+  assert (forall st0, pull_finish_ok (cell (board s)) (side s) st0 i d = false) as NoPull.
+  { intros st0. unfold pull_finish_ok. destruct st0; try reflexivity. rewrite Hc. destruct (dst_of i d); [|reflexivity]. now rewrite eqb_reflx. }
+  assert (push_start_ok (cell (board s)) (side s) i d = false) as NoPush.
+  { unfold push_start_ok. rewrite Hc. destruct (dst_of i d); [|reflexivity]. now rewrite eqb_reflx. }
+  destruct (sstatus_of (pstate pp)) as [|sq k|sq k].
+  - rewrite NoPull, NoPush, andb_false_r, !orb_false_r in V. now apply Own.
+  - rewrite NoPull, NoPush, andb_false_r, !orb_false_r in V. now apply Own.
+  - unfold push_finish_ok in V. rewrite Hc in V. destruct (dst_of i d); [|discriminate].
+    apply andb_prop in V. destruct V as [V _]. apply andb_prop in V. destruct V as [_ V]. destruct k; discriminate.
+Qed.
